@@ -200,7 +200,7 @@ def step(ctx, word):
 # ---- (b) URLs, (c) CSS ----------------------------------------------------------------------------------
 
 URL = ["java", "script", ":", "\t", "\n", " ", "�", "\x01", "J", "//", "data", "image/png", "text/html", ",", ";base64", "http", "#", "\xa0",
-       " ", "vb", "&amp;", "%", "x", "`", "\x00", "&#9;", "/", "?"]
+       " ", "vb", "&amp;", "%", "x", "`", "\x00", "&#9;", "/", "?", "-", "+", "."]      # (+ - . are scheme characters: ms-its:, web+x:, x.y:)
 CSS = ["url(", ")", "x", "color", ":", "red", ";", "expression(", "\\", "/*", "*/", "background", "u\\72l(", " ", "'", '"', "#fff", "-",
        "javascript:", "\\75rl(", "1px", "(", "@import"]
 
